@@ -869,6 +869,10 @@ func sigv4GenSpec(g *sim.Tape, seedKeys []string, allowStream bool) *sigv4Spec {
 
 // sigv4Run builds the environment, seeds the bucket and runs body as the one
 // client task of the run.
+// sigv4Overwritten remembers, per environment, the payloads of accepted PUTs
+// (so that a later GET of the same key is compared with the right content).
+var sigv4Overwritten = map[*sigv4Env][]string{}
+
 func sigv4Run(rc *RunCtx, body func(e *sigv4Env, seedKeys []string) (*Violation, error)) (*Violation, error) {
 	e, err := sigv4NewEnv(rc)
 	if err != nil {
@@ -899,6 +903,7 @@ func sigv4Run(rc *RunCtx, body func(e *sigv4Env, seedKeys []string) (*Violation,
 			}
 		}
 		viol, herr = body(e, seedKeys)
+		delete(sigv4Overwritten, e)
 		if herr == nil {
 			if snap, err := e.snapshot(); err == nil {
 				rc.StateSig = sigv4Hex256([]byte(snap))[:16]
@@ -1002,8 +1007,15 @@ func sigv4CheckAccepted(e *sigv4Env, s *sigv4Spec, r sigv4Resp) *Violation {
 			return rc.Fail("effect", "put-effect:"+sigv4ModeNames[s.Mode], "PUT answered %d but the object at key %q is present=%v with %d bytes (sent %d): %s", r.Status, s.Key, ok, len(got), len(s.Payload), s.describe())
 		}
 		rc.Stats.Inc("probe.put_effect_verified")
+		sigv4Overwritten[e] = append(sigv4Overwritten[e], s.Key+"\x00"+string(s.Payload))
 	case "get":
-		if want := "seed:" + s.Key; string(r.Body) != want {
+		want := "seed:" + s.Key
+		for _, kv := range sigv4Overwritten[e] { // a seed key may have been overwritten by an accepted PUT of this run
+			if k, v, _ := strings.Cut(kv, "\x00"); k == s.Key {
+				want = v
+			}
+		}
+		if string(r.Body) != want {
 			return rc.Fail("effect", "get-effect", "GET of key %q returned %q, want %q: %s", s.Key, sigv4Trunc(r.Body), want, s.describe())
 		}
 		rc.Stats.Inc("probe.get_effect_verified")
